@@ -282,8 +282,14 @@ class Exec:
         from z3 import ForAll
         v._ne = fresh('nonempty', B)
         v._len = fresh('len')
-        x = Int(f'x!ne{next(M._cnt)}')
-        p.pc.append(ForAll([x], Implies(v.has[x], v._ne), patterns=[v.has[x]]))
+        p.pc.append(self.ne_axiom(v))
+
+    @staticmethod
+    def ne_axiom(v):
+        """meaning of the truth value of a container: one with a member is non-empty"""
+        from z3 import ForAll
+        x = Const(f'x!ne{next(M._cnt)}', v.has.sort().domain())
+        return ForAll([x], Implies(v.has[x], v._ne), patterns=[v.has[x]])
 
     def name_it(self, p, z, hint='k'):
         """give a compound term a name (fresh constant + equation) so that array stores stay pattern-friendly"""
@@ -419,12 +425,33 @@ class Exec:
 
     def ev_IfExp(self, e, p):
         c = truth(self.ev(e.test, p))
-        a, b = self.ev(e.body, p), self.ev(e.orelse, p)
-        if isinstance(a, IntV) and isinstance(b, IntV):
-            return IntV(If(c, zint(a, self, p), zint(b, self, p)))
-        if isinstance(a, BoolV) and isinstance(b, BoolV):
-            return BoolV(If(c, a.z, b.z))
-        raise Unsupported('ifexp')
+
+        def under(guard, x):
+            # each branch is evaluated only when selected: obligations and learnt facts hold under its guard
+            n0 = len(p.pc)
+            p.pc.append(guard)
+            try:
+                v = self.ev(x, p)
+            finally:
+                new = p.pc[n0 + 1:]
+                del p.pc[n0:]
+            p.pc.extend(Implies(guard, f_) for f_ in new)
+            return v
+        a, b = under(c, e.body), under(Not(c), e.orelse)
+
+        def merge(a, b):
+            if isinstance(a, BoolV) and isinstance(b, BoolV):
+                return BoolV(If(c, a.z, b.z))
+            if isinstance(a, IntV) and isinstance(b, IntV):
+                if a.none is None and b.none is None:
+                    return IntV(If(c, a.z, b.z))
+                return IntV(If(c, a.z, b.z), If(c, is_none(a), is_none(b)))
+            if isinstance(a, NameV) and isinstance(b, NameV) and a.none is None and b.none is None:
+                return NameV(If(c, a.z, b.z))
+            if isinstance(a, TupV) and isinstance(b, TupV) and len(a.items) == len(b.items):
+                return TupV([merge(x, y) for x, y in zip(a.items, b.items)])
+            raise Unsupported('ifexp')
+        return merge(a, b)
 
     def ev_Compare(self, e, p):
         if len(e.ops) == 2 and all(isinstance(o, (ast.Lt, ast.LtE)) for o in e.ops):
@@ -633,6 +660,14 @@ class Exec:
         if attr == 'vars':
             if not isinstance(key, NameV):
                 raise Unsupported(f'vars[non-name]@{line}')
+            if 'KeyError' in self.c.raises and not getattr(self, 'qmode', None):
+                # the contract of the function under verification declares KeyError: a missing name is an exceptional exit
+                q = p.fork(Not(S.vin[key.z]))
+                q.status, q.exc, q.line, q.exc_from = 'raise', 'KeyError', line, None
+                q.when = Not(S.vin[key.z])
+                self.side_paths.append(q)
+                p.pc.append(S.vin[key.z])
+                return IntV(S.v2l[key.z])
             self.oblige(p, f'keyerror:vars@{line}', S.vin[key.z], line)
             self.assume(p, S.vin[key.z])
             return IntV(S.v2l[key.z])
@@ -710,6 +745,10 @@ class Exec:
                 raise Unsupported(f'comprehension over items of non-name dict@{e.lineno}')
             domp = lambda nm: src.has[nm]  # noqa
             valof = lambda nm: self.dict_val(src, nm)  # noqa
+        elif isinstance(it, ast.Name) and isinstance(p.env.get(it.id), (SetV, DictV)) and p.env[it.id].kkind == 'name' and valvar is None:
+            src = p.env[it.id]
+            domp = lambda nm: src.has[nm]  # noqa
+            valof = None
         elif isinstance(it, ast.Attribute) and it.attr == 'vars' and self.mgr_of_expr(it.value, p) is not None and valvar is None:
             Sd = p.mgrs[self.mgr_of_expr(it.value, p).key]
             domp = lambda nm: Sd.vin[nm]  # noqa
@@ -759,6 +798,24 @@ class Exec:
             raise Unsupported(f'comprehension key is not a level lookup@{e.lineno}')
         L = Int(f'L!{next(M._cnt)}')
         nm = Sk.l2v[L]
+        # the element obligations below range over the levels of Sk, i.e. over *declared* names only: that every name of
+        # the iteration domain is declared in Sk (otherwise the key lookup raises KeyError) is an obligation of its own
+        nq = Const(f'n!dom{next(M._cnt)}', M.Name)
+        if not (simplify(domp(nq)).eq(simplify(Sk.vin[nq]))):
+            wit = fresh('undeclared_elem', M.Name)
+            pu = p.fork(And(domp(wit), Not(Sk.vin[wit])))
+            pu.env[var] = NameV(wit)
+            if valvar:
+                pu.env[valvar] = valof(wit)
+            sq0 = getattr(self, 'qmode', None)
+            self.qmode = None
+            try:
+                self.ev(key_expr, pu)     # its exceptional exits (ValueError / KeyError of the lookup) become side paths
+            finally:
+                self.qmode = sq0
+            # the lookup of an undeclared name cannot succeed
+            self.oblige(pu, f'comprehension:lookup-of-undeclared-name-raises@{e.lineno}', BoolVal(False), e.lineno)
+            p.pc.append(ForAll([nq], Implies(domp(nq), Sk.vin[nq]), patterns=[domp(nq)]))
         p.env[var] = NameV(nm)
         if valvar:
             p.env[valvar] = valof(nm)
@@ -952,8 +1009,10 @@ class Exec:
             return BoolV(BoolVal(isinstance(v, BoolV)))
         if t == 'int':
             return BoolV(BoolVal(isinstance(v, (BoolV, IntV))) if not isinstance(v, IntV) or v.none is None else Not(v.none))
-        if t == 'dict':
+        if t in ('dict', '_abc.Mapping'):
             return BoolV(BoolVal(isinstance(v, DictV)))
+        if t in ('set', '_abc.Set'):
+            return BoolV(BoolVal(isinstance(v, SetV)))
         if t in ('Function', 'BDD'):
             # handle parameters are Function objects by kind (other types are outside the model)
             return BoolV(BoolVal(isinstance(v, ObjV) and v.cls.endswith('.' + t)))
@@ -965,6 +1024,10 @@ class Exec:
             if mv is not None and e.args[0].attr == 'vars':
                 S = p.mgrs[mv.key]
                 return DictV(S.vin, S.v2l, 'int', 'name')
+        if len(e.args) == 1 and not e.keywords:
+            v = self.ev(e.args[0], p)
+            if isinstance(v, DictV):
+                return v.copy()
         if e.args or e.keywords:
             raise Unsupported('dict(...)')
         return self.empty_dict(e)
@@ -1301,6 +1364,8 @@ class Exec:
         for nm, g in pre_list:
             if nm in skip:
                 continue    # recursive call passing its own unchanged parameters: the clause is the caller's precondition
+            if z3.is_quantifier(g) and any(g.eq(h) for h in p.pc if z3.is_quantifier(h)):
+                continue    # literally one of the hypotheses of this path (e.g. a ghost axiom handed on unchanged)
             self.oblige(p, f'call-pre:{c.name.split(".")[-1]}.{nm}@{line}', g, line)
         # exceptional outcomes
         for exc, rs in c.raises.items():
@@ -1447,6 +1512,16 @@ class Exec:
                 try:
                     res = self.stmt(st, p)
                 except PathDead:
+                    res = []
+                except Unsupported:
+                    # code outside the subset is tolerated only where it cannot be reached (path condition proved contradictory)
+                    from z3 import Solver, unsat
+                    sv = Solver()
+                    sv.set('timeout', 5000)
+                    sv.add(*p.pc)
+                    if sv.check() != unsat:
+                        raise
+                    self.dead_unsupported = getattr(self, 'dead_unsupported', 0) + 1
                     res = []
                 except PyRaise as pr:
                     p.status, p.exc, p.line, p.exc_from = 'raise', pr.exc, pr.line, None
@@ -1793,7 +1868,7 @@ class Exec:
             if isinstance(pat, ast.MatchOr) and all(isinstance(x, ast.MatchClass) and not x.patterns for x in pat.patterns):
                 names = [ast.unparse(x.cls) for x in pat.patterns]
                 c = BoolVal(any(self.match_class(subj, t) for t in names))
-            elif isinstance(pat, ast.MatchClass) and not pat.patterns and ast.unparse(pat.cls) in ('Function', 'dict', 'list', 'set'):
+            elif isinstance(pat, ast.MatchClass) and not pat.patterns and ast.unparse(pat.cls) in ('Function', 'dict', 'list', 'set', '_abc.Mapping', '_abc.Set'):
                 c = BoolVal(self.match_class(subj, ast.unparse(pat.cls)))
             elif isinstance(pat, ast.MatchClass) and not pat.patterns:
                 t = ast.unparse(pat.cls)
@@ -1824,6 +1899,7 @@ class Exec:
     def match_class(self, v, t):
         return {'str': isinstance(v, (StrV, NameV)), 'bool': isinstance(v, BoolV), 'int': isinstance(v, (IntV, BoolV)),
                 'Function': isinstance(v, ObjV) and v.cls.endswith('.Function'), 'dict': isinstance(v, DictV),
+                '_abc.Mapping': isinstance(v, DictV), '_abc.Set': isinstance(v, SetV),
                 'list': isinstance(v, ListV), 'set': isinstance(v, SetV)}.get(t, False)
 
     # ---- loops --------------------------------------------------------------------------------------------
